@@ -162,8 +162,9 @@ type TermTable struct {
 }
 
 type tableLoad struct {
-	key string
-	idx *Term
+	key  string
+	idx  *Term
+	vals []uint64
 }
 
 func newTermTable() *TermTable {
@@ -337,6 +338,10 @@ func (tt *TermTable) Eq(a, b *Term) *Term {
 		if r := tt.eqIteConst(a, b, &budget, map[*Term]*Term{}); r != nil {
 			return r
 		}
+	}
+	// unsigned range analysis: a value that cannot reach k is not equal to it
+	if b.op == OConst && b.cb == nil && a.w <= 64 && a.w > 0 && (tt.ubound(a, 12) < b.c || tt.lbound(a, 12) > b.c) {
+		return tFalse
 	}
 	// eq(zext(x), k)
 	if b.op == OConst && a.op == OZext && b.cb == nil {
@@ -607,12 +612,22 @@ func (tt *TermTable) Cmp(op Op, a, b *Term) *Term {
 	}
 	// unsigned range analysis: x op k decided by an upper bound of x
 	if b.op == OConst && a.w <= 64 && (op == OULt || op == OULe) {
-		if ub := ubound(a, 12); (op == OULt && ub < b.c) || (op == OULe && ub <= b.c) {
+		if ub := tt.ubound(a, 12); (op == OULt && ub < b.c) || (op == OULe && ub <= b.c) {
+			return tTrue
+		}
+	}
+	if b.op == OConst && a.w <= 64 && (op == OULt || op == OULe) {
+		if lb := tt.lbound(a, 12); (op == OULt && lb >= b.c) || (op == OULe && lb > b.c) {
+			return tFalse
+		}
+	}
+	if a.op == OConst && b.w <= 64 && (op == OULt || op == OULe) {
+		if lb := tt.lbound(b, 12); (op == OULt && a.c < lb) || (op == OULe && a.c <= lb) {
 			return tTrue
 		}
 	}
 	if a.op == OConst && b.w <= 64 && (op == OULt || op == OULe) {
-		if ub := ubound(b, 12); (op == OULt && ub <= a.c) || (op == OULe && ub < a.c) {
+		if ub := tt.ubound(b, 12); (op == OULt && ub <= a.c) || (op == OULe && ub < a.c) {
 			return tFalse
 		}
 	}
@@ -620,8 +635,19 @@ func (tt *TermTable) Cmp(op Op, a, b *Term) *Term {
 }
 
 // ubound returns an upper bound of the unsigned value of t (w <= 64).
-func ubound(t *Term, depth int) uint64 {
+func (tt *TermTable) ubound(t *Term, depth int) uint64 {
 	m := mask(t.w)
+	if tt.tableLoads != nil && t.op == OIte {
+		if tl, ok := tt.tableLoads[t]; ok && len(tl.vals) > 0 {
+			mx := uint64(0)
+			for _, v := range tl.vals {
+				if v > mx {
+					mx = v
+				}
+			}
+			return mx
+		}
+	}
 	if t.w > 64 || depth == 0 {
 		return m
 	}
@@ -635,30 +661,30 @@ func ubound(t *Term, depth int) uint64 {
 	case OConst:
 		return t.c
 	case OBAnd:
-		return min(ubound(t.a, depth-1), ubound(t.b, depth-1))
+		return min(tt.ubound(t.a, depth-1), tt.ubound(t.b, depth-1))
 	case OLShr:
 		if t.b.op == OConst && t.b.c < 64 {
-			return ubound(t.a, depth-1) >> t.b.c
+			return tt.ubound(t.a, depth-1) >> t.b.c
 		}
 	case OZext:
-		return ubound(t.a, depth-1)
+		return tt.ubound(t.a, depth-1)
 	case OExtract:
 		if t.lo == 0 && t.a.w <= 64 {
-			return min(ubound(t.a, depth-1), m)
+			return min(tt.ubound(t.a, depth-1), m)
 		}
 	case OIte:
-		x, y := ubound(t.b, depth-1), ubound(t.d, depth-1)
+		x, y := tt.ubound(t.b, depth-1), tt.ubound(t.d, depth-1)
 		if x > y {
 			return x
 		}
 		return y
 	case OURem:
 		if t.b.op == OConst && t.b.c > 0 {
-			return min(t.b.c-1, ubound(t.a, depth-1))
+			return min(t.b.c-1, tt.ubound(t.a, depth-1))
 		}
 	case OUDiv:
 		if t.b.op == OConst && t.b.c > 0 {
-			return ubound(t.a, depth-1) / t.b.c
+			return tt.ubound(t.a, depth-1) / t.b.c
 		}
 	}
 	return m
@@ -1088,4 +1114,35 @@ func (tt *TermTable) eqIteConst(t, k *Term, budget *int, memo map[*Term]*Term) *
 	r := tt.Ite(t.a, a, b)
 	memo[t] = r
 	return r
+}
+
+// lbound returns a lower bound of the unsigned value of t (w <= 64).
+func (tt *TermTable) lbound(t *Term, depth int) uint64 {
+	if t.w > 64 || depth == 0 {
+		return 0
+	}
+	if tt.tableLoads != nil && t.op == OIte {
+		if tl, ok := tt.tableLoads[t]; ok && len(tl.vals) > 0 {
+			mn := tl.vals[0]
+			for _, v := range tl.vals {
+				if v < mn {
+					mn = v
+				}
+			}
+			return mn
+		}
+	}
+	switch t.op {
+	case OConst:
+		return t.c
+	case OZext:
+		return tt.lbound(t.a, depth-1)
+	case OIte:
+		x, y := tt.lbound(t.b, depth-1), tt.lbound(t.d, depth-1)
+		if x < y {
+			return x
+		}
+		return y
+	}
+	return 0
 }
